@@ -269,6 +269,16 @@ class Model(object):
                     raise Invalid("# not followed by a parameter")
                 if t.s in ("__VA_ARGS__", "__VA_OPT__") and not variadic:
                     raise Invalid("__VA_ARGS__ outside a variadic macro")
+        depth = 0
+        for t in body:
+            if t.s == "(":
+                depth += 1
+            elif t.s == ")":
+                depth -= 1
+                if depth < 0:
+                    break
+        if depth != 0:
+            self.f.add("body-unbalanced-parens")     # a property of the program, recorded when defined
         mac = Macro(name, params, variadic, body, how)
         if params is not None:
             self.parse_body(mac)       # validates __VA_OPT__ syntax
@@ -525,16 +535,6 @@ class Model(object):
         return Tok("str", '"' + s + '"')
 
     def subst(self, m, args, hs, name):
-        depth = 0
-        for t in m.body:
-            if t.s == "(":
-                depth += 1
-            elif t.s == ")":
-                depth -= 1
-                if depth < 0:
-                    break
-        if depth != 0:
-            self.f.add("body-unbalanced-parens")
         if m.params is None:
             res = [t.cp() for t in m.body]
             self.f.add("obj" if res else "obj-empty")
@@ -572,6 +572,19 @@ class Model(object):
                 cache[idx] = []
             else:
                 cache[idx] = self.expand([t.cp() for t in args[idx]])
+
+                def commas(ts):
+                    d = n = 0
+                    for t in ts:
+                        if t.s == "(":
+                            d += 1
+                        elif t.s == ")":
+                            d -= 1
+                        elif t.s == "," and d == 0:
+                            n += 1
+                    return n
+                if commas(cache[idx]) != commas(args[idx]):
+                    self.f.add("arg-expansion-makes-comma")
         return cache[idx]
 
     def subst_seq(self, m, nodes, args, cache, name):
